@@ -23,7 +23,15 @@ impl Matcher for ByteMatcher {
         Ok(None)
     }
     fn new_captures(&self) -> Result<NoCaptures, NoError> { Ok(NoCaptures::new()) }
+    /// with FAST on, the matcher names `\n` as a byte that no match contains (true: K is never `\n`), which
+    /// makes the searcher take its FAST line path (find_by_line_fast, match_by_line_fast[_invert]); off, the
+    /// slow line-by-line path.  Every oracle runs under both.
+    fn line_terminator(&self) -> Option<grep_matcher::LineTerminator> {
+        if fast_flag() == 1 { Some(grep_matcher::LineTerminator::byte(b'\n')) } else { None }
+    }
 }
+pub static FAST: std::sync::atomic::AtomicUsize = std::sync::atomic::AtomicUsize::new(0);
+pub fn fast_flag() -> usize { FAST.load(std::sync::atomic::Ordering::SeqCst) }
 
 pub const MAXEV: usize = 12;
 #[derive(Clone, Copy, PartialEq, Eq, Debug)]
@@ -159,6 +167,78 @@ pub fn slice_matches_reference(input: &[u8], k: u8, invert: bool, after: usize, 
     let exp = expected(input, k, invert, after, before);
     if exp.len() > MAXEV { return true; } // recording capacity exceeded: not compared
     r.is_ok() && rec.n + 1 == exp.len() && rec.evs[..exp.len()] == exp[..]
+}
+
+/// The grep model extended by passthru (every unselected line is delivered as `Other` context; only with
+/// before = after = 0) and stop-on-nonmatch (the search ends with the first unselected line that follows a
+/// selected one; that line is still delivered if it is after-context or a passthru line; nothing later is
+/// visited, so later matches get neither delivery nor before-context; finish reports the end of that line).
+pub fn expected_ext(input: &[u8], k: u8, invert: bool, after: usize, before: usize, passthru: bool, son: bool) -> (Vec<Ev>, bool) {
+    let mut lines: Vec<(usize, usize, bool)> = Vec::new();
+    let mut s = 0;
+    while s < input.len() {
+        let mut e = s; let mut has = false;
+        while e < input.len() && input[e] != b'\n' { if input[e] == k { has = true; } e += 1; }
+        if e < input.len() { e += 1; }
+        lines.push((s, e, has != invert));
+        s = e;
+    }
+    let n = lines.len();
+    let mut limit = n; // number of lines visited
+    let mut stopped = false;
+    if son {
+        let mut seen = false;
+        for i in 0..n {
+            if lines[i].2 { seen = true; } else if seen { limit = i + 1; stopped = true; break; }
+        }
+    }
+    let mut out = Vec::new();
+    let mut last: Option<usize> = None;
+    for i in 0..limit {
+        let sel = lines[i].2;
+        let is_before = !sel && (1..=before).any(|d| i + d < limit && lines[i + d].2);
+        let is_after = !sel && (1..=after).any(|d| i >= d && lines[i - d].2);
+        if !(sel || is_before || is_after || passthru) { continue; }
+        if let Some(p) = last { if p + 1 != i && (after > 0 || before > 0) { out.push(Ev { kind: 5, off: 0, len: 0, ln: 0 }); } }
+        last = Some(i);
+        let kind = if sel { 1 } else if is_after { 3 } else if is_before { 2 } else { 4 };
+        out.push(Ev { kind, off: lines[i].0 as u64, len: lines[i].1 - lines[i].0, ln: i as u64 + 1 });
+    }
+    let end = if limit < n { lines[limit - 1].1 } else { input.len() };
+    out.push(Ev { kind: 6, off: end as u64, len: 0, ln: 0 });
+    (out, stopped)
+}
+
+/// C03/C02 with passthru and stop-on-nonmatch: slice and reader strategies deliver exactly the reference sequence
+pub fn ext_matches_reference(input: &[u8], k: u8, invert: bool, after: usize, before: usize, passthru: bool, son: bool, chunk: usize) -> bool {
+    let mk = || SearcherBuilder::new().line_number(true).invert_match(invert)
+        .after_context(after).before_context(before).passthru(passthru).stop_on_nonmatch(son).build();
+    let (exp, stopped_early) = expected_ext(input, k, invert, after, before, passthru, son);
+    if exp.len() > MAXEV { return true; } // recording capacity exceeded: not compared
+    let mut a = Rec::new(input, MAXEV * 4);
+    let ra = mk().search_slice(ByteMatcher(k), input, &mut a);
+    if !(ra.is_ok() && a.n + 1 == exp.len() && a.evs[..exp.len()] == exp[..]) { return false; }
+    if chunk == 0 { return true; }
+    let mut b = Rec::new(input, MAXEV * 4);
+    let rb = mk().search_reader(ByteMatcher(k), Chunked { data: input, pos: 0, chunk }, &mut b);
+    // Listed known finding (C02): when the reader strategy stops EARLY, finish() reports the stream offset of
+    // the start of the current buffer instead of the bytes searched, so the count depends on the read
+    // fragmentation.  The default run compares everything but that count; VERIF_TWIN_CLASS=known compares
+    // only that count.
+    let known_only = std::env::var("VERIF_TWIN_CLASS").map(|v| v == "known").unwrap_or(false);
+    let m = exp.len() - 1;
+    let ok = if known_only {
+        !stopped_early || !(rb.is_ok() && b.n == m) || b.evs[m] == exp[m]
+    } else if stopped_early {
+        rb.is_ok() && b.n == m && b.evs[..m] == exp[..m] && b.evs[m].kind == 6
+    } else {
+        rb.is_ok() && b.n == m && b.evs[..exp.len()] == exp[..]
+    };
+    if !ok && std::env::var("VERIF_REPLAY_EXT").is_ok() {
+        println!("reader delivered: {:?}", &b.evs[..core::cmp::min(b.n + 1, MAXEV)]);
+        println!("slice  delivered: {:?}", &a.evs[..core::cmp::min(a.n + 1, MAXEV)]);
+    }
+    ok
 }
 
 /// a reader that hands out at most `chunk` bytes per read
@@ -307,6 +387,7 @@ mod proofs {
 
 /// native re-execution of a recorded counterexample (bin twin_replay, feature "twin")
 pub fn replay_main() -> i32 {
+    FAST.store(std::env::var("VERIF_REPLAY_FAST").ok().and_then(|v| v.parse().ok()).unwrap_or(0), std::sync::atomic::Ordering::SeqCst);
     let hex = std::env::var("VERIF_REPLAY_HEX").unwrap_or_default();
     let bytes: Vec<u8> = (0..hex.len() / 2).map(|i| u8::from_str_radix(&hex[2 * i..2 * i + 2], 16).unwrap()).collect();
     let inv = std::env::var("VERIF_REPLAY_INVERT").map(|v| v != "0").unwrap_or(false);
@@ -314,6 +395,14 @@ pub fn replay_main() -> i32 {
     let ctx: usize = std::env::var("VERIF_REPLAY_CTX").ok().and_then(|v| v.parse().ok()).unwrap_or(0);
     let after: usize = std::env::var("VERIF_REPLAY_AFTER").ok().and_then(|v| v.parse().ok()).unwrap_or(ctx);
     let before: usize = std::env::var("VERIF_REPLAY_BEFORE").ok().and_then(|v| v.parse().ok()).unwrap_or(ctx);
+    if std::env::var("VERIF_REPLAY_EXT").is_ok() {
+        let g = |k: &str| std::env::var(k).ok().and_then(|v| v.parse::<usize>().ok()).unwrap_or(0);
+        let (pt, son, chunk) = (g("VERIF_REPLAY_PASSTHRU") != 0, g("VERIF_REPLAY_SON") != 0, g("VERIF_REPLAY_EXTCHUNK"));
+        let ok = ext_matches_reference(&bytes, b'x', inv, after, before, pt, son, chunk);
+        println!("replay: {:?} (invert={}, after={}, before={}, passthru={}, stop_on_nonmatch={}, reader chunk {}): {}", bytes, inv, after, before, pt, son, chunk,
+            if ok { "delivered events equal the grep model" } else { "delivered events DIFFER from the grep model" });
+        return if ok { 0 } else { 1 };
+    }
     if std::env::var("VERIF_REPLAY_BINARY").is_ok() {
         let g = |k: &str| std::env::var(k).ok().and_then(|v| v.parse::<usize>().ok()).unwrap_or(0);
         let ok = quit_mode_never_delivers_nul(g("VERIF_REPLAY_PREFIX"), &bytes, inv, after, before, g("VERIF_REPLAY_SON") != 0, g("VERIF_REPLAY_READER") != 0);
@@ -349,6 +438,16 @@ pub fn replay_main() -> i32 {
 /// context 0..1 each, sink refusal at event 0..3 or never, reader chunk sizes 1..2: the grep model holds and
 /// the reader strategy agrees with the slice strategy.  Prints the first failing case.
 pub fn exhaustive_small() -> bool {
+    for f in [0usize, 1] {
+        FAST.store(f, std::sync::atomic::Ordering::SeqCst);
+        if !exhaustive_small_mode() {
+            println!("(matcher line_terminator reported: {})", f == 1);
+            return false;
+        }
+    }
+    true
+}
+fn exhaustive_small_mode() -> bool {
     let alpha = [b'x', b'\n', b'a'];
     let mut t = [0u8; 5];
     for n in 0..=5usize {
@@ -360,30 +459,42 @@ pub fn exhaustive_small() -> bool {
                 for r in [0usize, 1, 2, 3, MAXEV] {
                     if !run_slice(&t[..n], b'x', inv, after, before, r) {
                         println!("FAILING CASE model input={:?} invert={} after={} before={} refuse_at={}", &t[..n], inv, after, before, r);
-                        println!("VERIF_REPLAY_HEX={} VERIF_REPLAY_INVERT={} VERIF_REPLAY_AFTER={} VERIF_REPLAY_BEFORE={} VERIF_REPLAY_REFUSE={}",
-                            t[..n].iter().map(|b| format!("{:02x}", b)).collect::<String>(), inv as u8, after, before, r);
+                        println!("VERIF_REPLAY_FAST={} VERIF_REPLAY_HEX={} VERIF_REPLAY_INVERT={} VERIF_REPLAY_AFTER={} VERIF_REPLAY_BEFORE={} VERIF_REPLAY_REFUSE={}",
+                            fast_flag(), t[..n].iter().map(|b| format!("{:02x}", b)).collect::<String>(), inv as u8, after, before, r);
                         return false;
+                    }
+                }
+                for (passthru, son) in [(false, true), (true, false), (true, true)] {
+                    if passthru && (after > 0 || before > 0) { continue; }
+                    for chunk in [0usize, 1, 2] {
+                        if !ext_matches_reference(&t[..n], b'x', inv, after, before, passthru, son, chunk) {
+                            println!("FAILING CASE reference-model-ext input={:?} invert={} after={} before={} passthru={} stop_on_nonmatch={} reader_chunk={} (0 = slice only): delivered events differ from the grep model {:?}",
+                                &t[..n], inv, after, before, passthru, son, chunk, expected_ext(&t[..n], b'x', inv, after, before, passthru, son).0);
+                            println!("VERIF_REPLAY_FAST={} VERIF_REPLAY_HEX={} VERIF_REPLAY_INVERT={} VERIF_REPLAY_AFTER={} VERIF_REPLAY_BEFORE={} VERIF_REPLAY_PASSTHRU={} VERIF_REPLAY_SON={} VERIF_REPLAY_EXTCHUNK={} VERIF_REPLAY_EXT=1",
+                                fast_flag(), t[..n].iter().map(|b| format!("{:02x}", b)).collect::<String>(), inv as u8, after, before, passthru as u8, son as u8, chunk);
+                            return false;
+                        }
                     }
                 }
                 if !slice_matches_reference(&t[..n], b'x', inv, after, before) {
                     println!("FAILING CASE reference-model input={:?} invert={} after={} before={}", &t[..n], inv, after, before);
-                    println!("VERIF_REPLAY_HEX={} VERIF_REPLAY_INVERT={} VERIF_REPLAY_AFTER={} VERIF_REPLAY_BEFORE={} VERIF_REPLAY_REFERENCE=1",
-                        t[..n].iter().map(|b| format!("{:02x}", b)).collect::<String>(), inv as u8, after, before);
+                    println!("VERIF_REPLAY_FAST={} VERIF_REPLAY_HEX={} VERIF_REPLAY_INVERT={} VERIF_REPLAY_AFTER={} VERIF_REPLAY_BEFORE={} VERIF_REPLAY_REFERENCE=1",
+                        fast_flag(), t[..n].iter().map(|b| format!("{:02x}", b)).collect::<String>(), inv as u8, after, before);
                     return false;
                 }
                 for chunk in 1..3usize {
                     for fail_at in 0..4usize {
                         if !read_error_surfaces(&t[..n], b'x', inv, after, before, chunk, fail_at) {
                             println!("FAILING CASE read-error input={:?} invert={} after={} before={} chunk={} fail_at={}", &t[..n], inv, after, before, chunk, fail_at);
-                            println!("VERIF_REPLAY_HEX={} VERIF_REPLAY_INVERT={} VERIF_REPLAY_AFTER={} VERIF_REPLAY_BEFORE={} VERIF_REPLAY_CHUNK={} VERIF_REPLAY_FAIL_AT={}",
-                                t[..n].iter().map(|b| format!("{:02x}", b)).collect::<String>(), inv as u8, after, before, chunk, fail_at);
+                            println!("VERIF_REPLAY_FAST={} VERIF_REPLAY_HEX={} VERIF_REPLAY_INVERT={} VERIF_REPLAY_AFTER={} VERIF_REPLAY_BEFORE={} VERIF_REPLAY_CHUNK={} VERIF_REPLAY_FAIL_AT={}",
+                                fast_flag(), t[..n].iter().map(|b| format!("{:02x}", b)).collect::<String>(), inv as u8, after, before, chunk, fail_at);
                             return false;
                         }
                     }
                     if !reader_agrees(&t[..n], b'x', inv, after, before, chunk) {
                         println!("FAILING CASE reader-vs-slice input={:?} invert={} after={} before={} chunk={}", &t[..n], inv, after, before, chunk);
-                        println!("VERIF_REPLAY_HEX={} VERIF_REPLAY_INVERT={} VERIF_REPLAY_AFTER={} VERIF_REPLAY_BEFORE={} VERIF_REPLAY_CHUNK={}",
-                            t[..n].iter().map(|b| format!("{:02x}", b)).collect::<String>(), inv as u8, after, before, chunk);
+                        println!("VERIF_REPLAY_FAST={} VERIF_REPLAY_HEX={} VERIF_REPLAY_INVERT={} VERIF_REPLAY_AFTER={} VERIF_REPLAY_BEFORE={} VERIF_REPLAY_CHUNK={}",
+                            fast_flag(), t[..n].iter().map(|b| format!("{:02x}", b)).collect::<String>(), inv as u8, after, before, chunk);
                         return false;
                     }
                 }
@@ -404,8 +515,8 @@ pub fn exhaustive_small() -> bool {
                 for son in [false, true] { for reader in [false, true] {
                     if !quit_mode_never_delivers_nul(prefix, &u[..n], inv, after, before, son, reader) {
                         println!("FAILING CASE binary-quit prefix_bytes={} tail={:?} invert={} after={} before={} stop_on_nonmatch={} reader={}", prefix, &u[..n], inv, after, before, son, reader);
-                        println!("VERIF_REPLAY_HEX={} VERIF_REPLAY_INVERT={} VERIF_REPLAY_AFTER={} VERIF_REPLAY_BEFORE={} VERIF_REPLAY_PREFIX={} VERIF_REPLAY_SON={} VERIF_REPLAY_READER={} VERIF_REPLAY_BINARY=1",
-                            u[..n].iter().map(|b| format!("{:02x}", b)).collect::<String>(), inv as u8, after, before, prefix, son as u8, reader as u8);
+                        println!("VERIF_REPLAY_FAST={} VERIF_REPLAY_HEX={} VERIF_REPLAY_INVERT={} VERIF_REPLAY_AFTER={} VERIF_REPLAY_BEFORE={} VERIF_REPLAY_PREFIX={} VERIF_REPLAY_SON={} VERIF_REPLAY_READER={} VERIF_REPLAY_BINARY=1",
+                            fast_flag(), u[..n].iter().map(|b| format!("{:02x}", b)).collect::<String>(), inv as u8, after, before, prefix, son as u8, reader as u8);
                         return false;
                     }
                 }}
